@@ -118,6 +118,12 @@ func (p *pair) flip(dir string) {
 
 // newPair builds the pair; arm (may be nil) installs fault scripts on the link before the client dials.
 func newPair(e *vsched.Exec, c itCfg, latency time.Duration, arm func(p *pair)) (*pair, error) {
+	return newPairWith(e, c, latency, arm, nil)
+}
+
+// newPairWith is newPair with a say in the client's configuration: tweak (may be nil) edits the ClientConfig
+// (transports, WebSocket dial options) before eio.Dial.
+func newPairWith(e *vsched.Exec, c itCfg, latency time.Duration, arm func(p *pair), tweak func(p *pair, cfg *eio.ClientConfig)) (*pair, error) {
 	p := &pair{e: e, I: c.I, T: c.T}
 	p.srv = eio.NewServer(func(s eio.ServerSocket) *eio.Callbacks {
 		p.v.Do(func() { p.ssock = s })
@@ -156,6 +162,10 @@ func newPair(e *vsched.Exec, c itCfg, latency time.Duration, arm func(p *pair)) 
 	if arm != nil {
 		arm(p)
 	}
+	ccfg := &eio.ClientConfig{Transports: []string{"polling"}, HTTPTransport: p.link}
+	if tweak != nil {
+		tweak(p, ccfg)
+	}
 	cs, err := eio.Dial("http://inproc/engine.io/", &eio.Callbacks{
 		OnPacket: func(ps ...*parser.Packet) {
 			p.v.Do(func() {
@@ -173,7 +183,7 @@ func newPair(e *vsched.Exec, c itCfg, latency time.Duration, arm func(p *pair)) 
 		OnClose: func(r eio.Reason, err error) {
 			p.v.Do(func() { p.cliClose = append(p.cliClose, closeEv{e.Clock(), string(r)}) })
 		},
-	}, &eio.ClientConfig{Transports: []string{"polling"}, HTTPTransport: p.link})
+	}, ccfg)
 	if err != nil {
 		return nil, fmt.Errorf("dial: %w", err)
 	}
